@@ -35,13 +35,17 @@ class LimitErr(PErr):
 
 class Num:
     """Exact number. (coeff, exp) is the decimal representation (sign in `neg`) when known."""
-    __slots__ = ('v', 'neg', 'coeff', 'exp')
+    __slots__ = ('v', 'neg', 'coeff', 'exp', 'plain')
 
     def __init__(self, v, neg=None, coeff=None, exp=None):
         self.v = Fraction(v)
         self.neg = neg
         self.coeff = coeff
         self.exp = exp
+        # `plain`: the number is known to print the same inside a container as on its own (literals, host numbers,
+        # results of int / round / floor / ceil / abs / len); results of arithmetic are library-internal objects whose
+        # rendering inside str(list) the statements do not define
+        self.plain = False
 
     @staticmethod
     def triple(neg, coeff, exp):
@@ -50,7 +54,9 @@ class Num:
 
     @staticmethod
     def of_int(i):
-        return Num.triple(i < 0, abs(i), 0)
+        n = Num.triple(i < 0, abs(i), 0)
+        n.plain = True
+        return n
 
     def known(self):
         return self.coeff is not None
@@ -85,8 +91,13 @@ class Num:
         return f'Num({self.text() or self.v})'
 
 
+def plain(n):
+    n.plain = True
+    return n
+
+
 def num_literal(coeff, exp):
-    return Num.triple(False, coeff, exp)
+    return plain(Num.triple(False, coeff, exp))
 
 
 def _round_triple(neg, coeff, exp):
@@ -213,7 +224,28 @@ def to_text(v):
         return t
     if isinstance(v, str):
         return v
-    raise Undefined('text of a container or function')
+    if isinstance(v, (list, tuple, dict)):
+        return repr_text(v)
+    raise Undefined('text of a function')
+
+
+def repr_text(v):
+    """What str() shows for a value INSIDE a container: numbers as the language prints them, strings quoted as Python does."""
+    if isinstance(v, str):
+        return repr(v)
+    if isinstance(v, list):
+        return '[' + ', '.join(repr_text(x) for x in v) + ']'
+    if isinstance(v, tuple):
+        if len(v) == 1:
+            return '(' + repr_text(v[0]) + ',)'
+        return '(' + ', '.join(repr_text(x) for x in v) + ')'
+    if isinstance(v, dict):
+        return '{' + ', '.join(repr(k) + ': ' + repr_text(x) for k, x in v.items()) + '}'
+    if isinstance(v, (Closure, Builtin)):
+        raise Undefined('text of a function')
+    if isinstance(v, Num) and not v.plain:
+        raise Undefined('rendering of an arithmetic result inside a container')
+    return to_text(v)
 
 
 def eq(a, b):
@@ -376,8 +408,8 @@ class Machine:
         raise Undefined(f'node {k}')
 
     def dict_key(self, k):
-        if isinstance(k, (list, dict, tuple, Closure, Builtin)):
-            raise Undefined('container as dict key')
+        if isinstance(k, (Closure, Builtin)):
+            raise Undefined('function as dict key')
         return to_text(k)
 
     def binop(self, t):
@@ -516,7 +548,7 @@ class Machine:
         if name == 'abs' and n == 1 and isinstance(a[0], Num):
             x = a[0]
             if x.known():
-                return Num.triple(*_round_triple(False, x.coeff, x.exp))
+                return plain(Num.triple(*_round_triple(False, x.coeff, x.exp)))
             return Num(X.round_sig(abs(x.v)))
         if name in ('floor', 'ceil') and n == 1 and isinstance(a[0], Num):
             if abs(a[0].v) >= Fraction(10) ** 28:
